@@ -192,3 +192,10 @@ Print Assumptions C01_checked_writer_agrees.
 Theorem C01_checked_reader_total : forall ls e p, read_srt_lines_c ls e <> Panic p.
 Proof. exact read_srt_lines_c_no_panic. Qed.
 Print Assumptions C01_checked_reader_total.
+
+(* ---- CORRECTION to the header of this file (second audit, N7): what is compared outside html_simple ----
+   The header says that outside the faithful domain of the markup tokenizer model "the harness compares result classes
+   only".  What it really compares there (harness/core.go, model answers starting with NS) is only whether the call
+   PANICS (model class Panic against a panic of the library); the Ok / Err distinction and the value are not compared.
+   Outside html_simple nothing is claimed about the library beyond "no panic" (C08); inside it, and that is where every
+   hypothesis of this file lives (C01_*_in_faithful_domain), values are compared exactly. *)
